@@ -408,6 +408,22 @@ def scanner(rep, f, c, labels):
                         ie = v[2]
                         if ie == ('fld', ('as', rs.local(res_local), 'Ok'), '0'):
                             ok_map = True
+    if not ok_map:
+        # the same with combinators: search.ok().map(|i| ENCODINGS_IN_LABEL_SORT[i]) as the returned value
+        rs = Resolver(b)
+        for d in b.defs.get(0, []):
+            if d[2] != 'call':
+                continue
+            e = rs.call(d[3], d[0], 0)
+            if e[0] == 'call' and (e[1] or '').endswith('Option::<T>::map') and len(e[2]) == 2:
+                src_, cl_ = e[2]
+                if src_[0] == 'call' and (src_[1] or '').endswith('Result::<T, E>::ok') and len(src_[2]) == 1 and src_[2][0] == rs.local(res_local) and \
+                        cl_[0] == 'agg' and cl_[1] == 'closure' and len(cl_) == 4:
+                    cb = f.body(cl_[3])
+                    if cb is not None and cb.arg_count == 2 and len(cb.defs.get(0, [])) == 1 and cb.defs[0][0][2] == 'assign':
+                        v = strip_ref(Resolver(cb).rvalue(cb.defs[0][0][3]['rv']))
+                        if v[0] == 'idx' and 'ENCODINGS_IN_LABEL_SORT' in str(v[1]) and v[2] == ('loc', 2):
+                            ok_map = True
     ob('result', ok_map, 'Ok(i) is not mapped to Some(ENCODINGS_IN_LABEL_SORT[i])')
 
 
